@@ -29,7 +29,11 @@ uint64_t nondet_ulong(void) { uint64_t v = __VERIFIER_nondet_u64(); verif_nd_log
 void verif_assert(uint32_t c, uint32_t id) { if (!c) verif_failed_id = id; __CPROVER_assert(c, "VERIF harness assertion"); }
 void verif_assume(uint32_t c) { __CPROVER_assume(c); }
 void verif_observe(uint64_t v) { }
+#ifdef VERIF_NO_WITNESS
+void verif_witness(void) { }      /* E2: reachability is shown by concrete runs of the generated model instead */
+#else
 void verif_witness(void) { __CPROVER_assert(0, "VERIF witness (must be reachable)"); }
+#endif
 #else
 #include <stdio.h>
 uint64_t verif_prng_next(int bits);
